@@ -300,6 +300,9 @@ def systematic(rng):
         for i in inputs:
             out.append([b'-x', l, b'-c', i])
             out.append([b'-x', l, i, b'-x', b'none', b'z.c'])
+    # the same library named more than once keeps every occurrence, in place
+    out += [[b'a.c', b'-lfoo', b'-lbar', b'-lfoo'], [b'-lm', b'o.o', b'-l', b'm', b'a.c', b'-lm'], [b'-lx', b'-lx'], [b'o.o', b'-l', b'y', b'lib.a', b'-l', b'y', b'-static'],
+            [b'-Lp', b'-Lp', b'-Ia', b'-Ia', b'-DX', b'-DX', b'a.c', b'-c']]
     # argc bookkeeping: a detached operand earlier, a pair option without operand at the end
     for first in ([b'-D', b'X'], [b'-DX'], [b'-o', b'out'], [b'-x', b'c'], [b'-l', b'm'], [b'-include', b'f']):
         for lastw in (b'-include', b'-MF', b'-iquote', b'-MT'):
